@@ -3,9 +3,12 @@ Model of applying a line diff to a compiled RocksDB (C08):
 
 * `dnsdata/rdb/applydiff.go`   `RDB.ApplyDiff(reader, serial)`: one codec for the whole diff (same
                                settings as the compiler, key layout read from the database), every
-                               diff line is parsed (`dbdiff.Entry.ParseBytes`), converted
-                               (`Entry.Convert` = `Codec.ConvertLn` on the line without its first
-                               byte) and its records scheduled with `Batch.Add` / `Batch.Del`;
+                               diff line is parsed (`dbdiff.Entry.ParseBytes`), its payload
+                               (the line without its first byte) filtered the way the compiler
+                               filters data lines (leading blanks trimmed; shorter than 2 bytes or
+                               starting with `#`: `continue`), converted (`Entry.Convert` =
+                               `Codec.ConvertLn`) and its records scheduled with `Batch.Add` /
+                               `Batch.Del`;
                                the first malformed line returns an error before anything is written;
                                at the end ONE `ExecuteBatch` (Model/MultiStore, C15).
 * `dnsdata/rdb/dbdiff/entry.go` `decodeOp`: first byte `+` or `-`, anything else is `ErrBadOp`.
@@ -65,19 +68,27 @@ def compileFile (conv : Conv) (extra : Pairs) (file : List Bytes) : Option KV :=
 /-! ### diff lines -/
 
 inductive LineKind where
-  | skip                    -- empty line or `#…`: `continue`
-  | plus (payload : Bytes)  -- `+<data line>`
+  | skip                    -- empty line, `#…`, or a payload the compiler would not read: `continue`
+  | plus (payload : Bytes)  -- `+<data line>`; `payload` = what `ConvertLn` is given (trimmed)
   | minus (payload : Bytes) -- `-<data line>`
   | bad                     -- `ErrBadOp`
 deriving DecidableEq, Repr
 
-/-- the head of the loop body of `RDB.ApplyDiff` + `Entry.ParseBytes` -/
+/-- after `ParseBytes`: `e.Bytes = bytes.TrimLeft(e.Bytes, " ")`, then
+`if len(e.Bytes) < 2 || e.Bytes[0] == '#' { continue }` — the compiler's filter on the payload -/
+def payloadKind (mk : Bytes → LineKind) (payload : Bytes) : LineKind :=
+  let p := trimLeft payload
+  if skippedByParser p then .skip else mk p
+
+/-- the loop body of `RDB.ApplyDiff` up to `Convert`: the outer filter
+(`len(line) < 1 || HasPrefix(line, "#")`), `Entry.ParseBytes` (`decodeOp`: first byte `+` / `-`,
+anything else `ErrBadOp`), the payload filter -/
 def classify : Bytes → LineKind
   | [] => .skip
   | c :: payload =>
     if c = 35 then .skip
-    else if c = 43 then .plus payload
-    else if c = 45 then .minus payload
+    else if c = 43 then payloadKind .plus payload
+    else if c = 45 then payloadKind .minus payload
     else .bad
 
 inductive DErr where
@@ -121,7 +132,7 @@ def applyRecs (s : KV) (plus minus : List Pairs) : Except Err KV :=
 def applyChain (conv : Conv) (s : KV) (diffs : List (List Bytes)) : Except DErr KV :=
   diffs.foldlM (applyDiff conv) s
 
-/-- the payloads of the `+` lines / `-` lines of a diff, in order -/
+/-- the payloads of the `+` lines / `-` lines of a diff that reach the codec (trimmed), in order -/
 def plusOf (diff : List Bytes) : List Bytes :=
   diff.filterMap fun l => match classify l with | .plus p => some p | _ => none
 
@@ -131,7 +142,18 @@ def minusOf (diff : List Bytes) : List Bytes :=
 /-- all records the codec emits for a list of (accepted) lines, in order -/
 def recsOf (conv : Conv) (ls : List Bytes) : Pairs := (ls.filterMap conv).flatten
 
-/-- a diff line `ApplyDiff` stops at -/
+/-- what follows the operation byte `op` of a diff line, as written in the diff file -/
+def payloadOf (op : UInt8) : Bytes → Option Bytes
+  | [] => none
+  | c :: p => if c = op then some p else none
+
+/-- the raw payloads of the `+` lines / `-` lines of a diff file, in order -/
+def rawPlusOf (diff : List Bytes) : List Bytes := diff.filterMap (payloadOf 43)
+
+def rawMinusOf (diff : List Bytes) : List Bytes := diff.filterMap (payloadOf 45)
+
+/-- a diff line `ApplyDiff` stops at: a bad operation byte, or a payload the codec rejects (a bare
+`+` / `-`, a payload shorter than 2 bytes after trimming or a `#` payload is skipped, not an error) -/
 def malformed (conv : Conv) (l : Bytes) : Bool :=
   match classify l with
   | .skip => false
